@@ -95,7 +95,9 @@ def penrose(A, X):
             "AX-herm": ref.fro(AX - ref.conjT(AX)), "XA-herm": ref.fro(XA - ref.conjT(XA))}
 
 
-def run_solver(out, order, A, gamma, max_iter, tol, compute_residuals=True, sparse=False):
+def run_solver(out, order, A, gamma, max_iter, tol, compute_residuals=True, sparse=False, warmup=None):
+    """warmup: None, or a matrix on which the SAME solver object is called first (its result is discarded): the
+    measured call must not depend on it (every call starts from X0 = A^H/||A||_F^2)."""
     if order == 3:
         solver = L.solver.HigherOrderNewtonSchulzPseudoinverse(max_iter=max_iter, tol=tol, verbose=False)
         site = "HigherOrderNS"
@@ -103,6 +105,10 @@ def run_solver(out, order, A, gamma, max_iter, tol, compute_residuals=True, spar
         solver = L.solver.NewtonSchulzPseudoinverse(gamma=gamma, max_iter=max_iter, tol=tol, verbose=False,
                                                      compute_residuals=compute_residuals)
         site = "NewtonSchulz"
+    if warmup is not None:
+        okw, _ = out.call(site + ".compute(warm-up call)", solver.compute, Q(warmup))
+        if not okw:
+            return site, None
     arg = S(A) if sparse else Q(A)
     h0 = ahash(arg)
     ok, r = out.call(site + ".compute", solver.compute, arg)
@@ -129,7 +135,8 @@ def model_cases(draw, tier):
     kk = draw(st.integers(k, K))
     return {"A": A, "kind": kind, "order": order, "gamma": gamma, "k": k, "K": kk,
             "compute_residuals": draw(st.booleans()) if order == 2 else True,
-            "sparse": draw(st.booleans()) if order == 2 else False}
+            "sparse": draw(st.booleans()) if order == 2 else False,
+            "warmup": draw(st.sampled_from([None, None, "same", "perturbed", "transposed_shape"]))}
 
 
 def check_model(case):
@@ -150,7 +157,17 @@ def check_model(case):
     # later step: geometric accumulation ((1+gamma)^k - 1)/gamma  (resp. (3^k - 1)/2)
     gr = 3.0 if order == 3 else 1.0 + gamma
     g = ((gr ** k - 1.0) / (gr - 1.0)) if rank_def else 1.0
-    site, r = run_solver(out, order, A, gamma, k, 0.0, case["compute_residuals"], case["sparse"])
+    wk = case.get("warmup")
+    warm = None
+    if wk == "same":
+        warm = A
+    elif wk == "perturbed":
+        warm = A * (1.0 + 1.0 / 64.0) + (inf["fro"] / 64.0) * ref.conj(A[::-1, ::-1])
+    elif wk == "transposed_shape":
+        warm = ref.conjT(A)
+    if wk:
+        out.label("reused_solver:" + wk)
+    site, r = run_solver(out, order, A, gamma, k, 0.0, case["compute_residuals"], case["sparse"], warmup=warm)
     if r is None:
         return out
     X, residuals, third = r
